@@ -1,0 +1,10 @@
+//go:build verif
+
+package blocklist
+
+import "time"
+
+// VerifSetTimeNow pins the clock used by Add/Exists/Peers (verification harness only).
+func VerifSetTimeNow(f func() time.Time) {
+	timeNow = f
+}
